@@ -108,6 +108,9 @@ def declbatch(pid, stage, tier, seed, outdir, chk):
     nb, nfull, nnames = stage["batches_" + tier]
     feats = stage.get("features")  # None = default features
     label = "" if feats is None else "-" + (feats.replace(",", "_") or "none")
+    prof = stage.get("profile")  # None = the batch crate's dev profile (debug assertions on); "rel" = release profile
+    if prof:
+        label += "-" + prof
     mode = stage.get("mode", pid)
     gen = os.path.join(chk.BUILD, "gen" + label)
     tdir = os.path.join(chk.BUILD, "gen-target" + label)
@@ -115,7 +118,7 @@ def declbatch(pid, stage, tier, seed, outdir, chk):
     lock = open(os.path.join(chk.BUILD, "gen%s.lock" % label), "w")
     fcntl.flock(lock, fcntl.LOCK_EX)
     merged = chk.new_merge()
-    merged["stage"] = "generated-declarations/%s%s (%d batches x %d full + %d name-set declarations)" % (mode, " features=[%s]" % feats if feats is not None else "", nb, nfull, nnames)
+    merged["stage"] = "generated-declarations/%s%s%s (%d batches x %d full + %d name-set declarations)" % (mode, " features=[%s]" % feats if feats is not None else "", " profile=%s" % prof if prof else "", nb, nfull, nnames)
     merged["stage_extra"] = {}
     try:
         cargo_toml = open(os.path.join(chk.ROOT, "orch", "declbatch.Cargo.toml")).read()
@@ -148,7 +151,7 @@ def declbatch(pid, stage, tier, seed, outdir, chk):
             if os.path.basename(f)[:-3] not in want:
                 os.remove(f)
         env = dict(chk.ENV_BASE, CARGO_TARGET_DIR=tdir)
-        p = subprocess.run(["cargo", "build", "--offline", "--bins"], cwd=gen, env=env, stdout=subprocess.PIPE, stderr=subprocess.STDOUT, text=True)
+        p = subprocess.run(["cargo", "build", "--offline", "--bins"] + (["--profile", prof] if prof else []), cwd=gen, env=env, stdout=subprocess.PIPE, stderr=subprocess.STDOUT, text=True)
         merged["stage_extra"]["compile_s"] = round(time.time() - t0, 1)
         if p.returncode != 0:
             errs = [l for l in p.stdout.splitlines() if l.startswith("error")]
@@ -186,7 +189,7 @@ def declbatch(pid, stage, tier, seed, outdir, chk):
             out = os.path.join(outdir, "decl-%s-%s.json" % (pid, name))
             if os.path.exists(out):
                 os.remove(out)
-            cmd = [os.path.join(tdir, "debug", name), "--mode", mode, "--tier", tier, "--out", out]
+            cmd = [os.path.join(tdir, prof or "debug", name), "--mode", mode, "--tier", tier, "--out", out]
             try:
                 r = subprocess.run(cmd, stdout=subprocess.PIPE, stderr=subprocess.PIPE, timeout=stage.get("timeout", 3000), env=chk.ENV_BASE)
                 return name, r.returncode, r.stderr.decode("utf8", "replace"), out
@@ -200,6 +203,7 @@ def declbatch(pid, stage, tier, seed, outdir, chk):
                 for v in r.get("violations", []):
                     v["replay"]["bin"] = name
                     v["replay"]["features"] = feats
+                    v["replay"]["profile"] = prof
                     v["replay"]["mode"] = mode
                     v["replay"]["tier"] = tier
                     v["replay"]["stage"] = {k: stage[k] for k in stage if k.startswith("batches_")}
@@ -361,6 +365,9 @@ def declbatch_replay(r, chk):
         return 2
     feats = r.get("features")
     label = "" if feats is None else "-" + (feats.replace(",", "_") or "none")
+    prof = r.get("profile")
+    if prof:
+        label += "-" + prof
     gen = os.path.join(chk.BUILD, "gen-replay" + label)
     tdir = os.path.join(chk.BUILD, "gen-target" + label)
     os.makedirs(os.path.join(gen, "src", "bin"), exist_ok=True)
@@ -373,10 +380,10 @@ def declbatch_replay(r, chk):
     src = os.path.join(gen, "src", "bin", "replay.rs")
     subprocess.run([vrun, "gen-decls", "--seed", str(r["seed"]), str(r["batch"]), str(r["n_full"]), str(r["n_names"]), src], env=chk.ENV_BASE, check=True)
     env = dict(chk.ENV_BASE, CARGO_TARGET_DIR=tdir)
-    p = subprocess.run(["cargo", "build", "--offline", "--bin", "replay"], cwd=gen, env=env)
+    p = subprocess.run(["cargo", "build", "--offline", "--bin", "replay"] + (["--profile", prof] if prof else []), cwd=gen, env=env)
     if p.returncode != 0:
         return 2
-    cmd = [os.path.join(tdir, "debug", "replay"), "--mode", r["mode"], "--tier", r.get("tier", "quick"), "--verbose", "1"] + (["--only", str(r["decl"])] if r.get("decl", -1) >= 0 else [])
+    cmd = [os.path.join(tdir, prof or "debug", "replay"), "--mode", r["mode"], "--tier", r.get("tier", "quick"), "--verbose", "1"] + (["--only", str(r["decl"])] if r.get("decl", -1) >= 0 else [])
     p = subprocess.run(cmd, env=chk.ENV_BASE, stdout=subprocess.PIPE, text=True)
     found = [l for l in p.stdout.splitlines() if l.startswith("FOUND")]
     print(p.stdout[:6000] if found else "(no violation reproduced)")
